@@ -14,7 +14,7 @@ RULE = ("random histories of 10-40 operations interleaving fingerprint() calls w
         "both before and after a content change of the same object")
 ASSUMED = ["element hashes: CPython numeric hash (ints, integral floats) and the fixed None constant; strings etc. use the "
            "same rolling combination"]
-MIX = {"vcat": 2, "newvec": 3, "newtab_dict": 3, "newtab_vecs": 1, "copy": 1, "slice": 1, "colview": 4, "stack": 1, "setv": 9,
+MIX = {"sel2d": 1, "vcat": 2, "newvec": 3, "newtab_dict": 3, "newtab_vecs": 1, "copy": 1, "slice": 1, "colview": 4, "stack": 1, "setv": 9,
        "sett": 5, "setattr": 3, "fp": 12, "read": 1, "drop": 1, "rename": 1, "math": 1}
 
 
